@@ -943,9 +943,14 @@ def gen_C13(tier, rng):
     for d in ([10, 100, 300] if tier == "quick" else [10, 100, 300, 600, 1000]):
         P("(" * d + "a" + ")" * d, "deep"); P("(" * d + "a" + ")" * (d - 1), "deep"); P("!" * d + "a", "deep"); P("a" + "&a" * d, "deep")
         P("(" * d + "a" + ")" * (d + 1), "deep"); P("{" * d + "a" + "}" * d, "deep")
+    # long input (more than 2^16 characters): counters and positions narrower than usize
+    big = 70000
+    for s_ in ("a" * big, " " * big + "a", "a" * big + " & b", "{" + "x" * big + "}", "a" * 66000 + ")", " " * 66000 + "}", "a " * 1500 + "& b",
+               "a & " * 2000 + "a", "(a | b) & " * 1500 + "c"):
+        P(s_, "long")
     cases = parse_cases("c13", strings, rng=rng)
     return {"cases": cases, "exhaustive": True, "dist": dict(dist),
-            "rule": "malformed and arbitrary text: every keyword/symbol followed or preceded by each of ~70 boundary characters (Unicode whitespace, long s, Kelvin sign, dotless i, NUL, combining mark, emoji, ...), every string over '()a& ' up to length %d and over '(){}a!' up to length %d, every 3-token string over 17 dangerous tokens, token / ASCII / Unicode soup, valid sentences with one character deleted, inserted or swapped, nesting depth and negation prefixes up to %d; accept/reject compared with the reference grammar (through the model, proved equal to it), error variant and position with the model, any panic is a failure; %d strings; non-trivial = all; distinct = string" % (6 if tier == "quick" else 7, 5 if tier == "quick" else 6, 300 if tier == "quick" else 1000, len(strings))}
+            "rule": "malformed and arbitrary text: every keyword/symbol followed or preceded by each of ~70 boundary characters (Unicode whitespace, long s, Kelvin sign, dotless i, NUL, combining mark, emoji, ...), every string over '()a& ' up to length %d and over '(){}a!' up to length %d, every 3-token string over 17 dangerous tokens, token / ASCII / Unicode soup, valid sentences with one character deleted, inserted or swapped, nesting depth and negation prefixes up to %d, inputs of more than 2^16 characters; accept/reject compared with the reference grammar (through the model, proved equal to it), error variant and position with the model, any panic is a failure; %d strings; non-trivial = all; distinct = string" % (6 if tier == "quick" else 7, 5 if tier == "quick" else 6, 300 if tier == "quick" else 1000, len(strings))}
 
 
 SAFE_NAMES = ["a", "b1", "x_y", "-k", "nota", "T1"]
